@@ -50,7 +50,13 @@ fn murmur3_32(key: &[u8]) -> u32 {
 
 /// `n` keys that fall into one cache bucket
 fn colliding_keys(seed: u64, n: usize) -> Vec<Vec<u8>> {
-    let target = (seed % 16384) as u32;
+    // the first and the last buckets of the table too (where the CLOCK hand wraps)
+    let target = match (seed / 3) % 4 {
+        0 => 16383,
+        1 => 0,
+        2 => 16382,
+        _ => (seed % 16384) as u32,
+    };
     let mut out = Vec::new();
     let mut i = 0u64;
     while out.len() < n {
